@@ -1,5 +1,5 @@
-(* C16 — Struct decoding tolerates schema evolution as configured. *)
-From SbModel Require Import Model.Marshal Model.Unmarshal Spec.Conform Proofs.MarshalP Proofs.UnmarshalP.
+(* C16 — Struct decoding tolerates schema evolution as configured.  Skip-empty clause (Proofs/SkipEmptyP.v): se_opts = skip-empty on; empty_field ft x = is_zero ft x || (ft is a slice type and x has length 0) is the marshaller's own test (is_zero mirrors reflect.Value.IsZero: -0.0 IS zero); kept_fields = the exported, non-empty fields in declaration order; fields_stream = their name tokens each followed by the field's own stream; normal_se = normal with every omitted field (at every depth) replaced by the zero of its type; deq = deep equality that identifies +0.0/-0.0, NaNs, and nil/empty containers. *)
+From SbModel Require Import Model.Marshal Model.Unmarshal Spec.Conform Proofs.MarshalP Proofs.UnmarshalP Proofs.SkipEmptyP.
 Local Open Scope nat_scope.
 
 (* data written by one version of a struct type is readable by another that shares field names: fields are assigned by exact name regardless of their order, absent fields are left untouched, unknown fields are skipped whatever they carry (maps, interfaces, funcs included).  Common fields must have the same type, taken from the round-trip universe, and start from zero content (by_name_refuted: unmarshalling MERGES into non-zero targets) *)
@@ -73,6 +73,88 @@ Theorem c16_merge_edge  :
     forall f, unm pf f o R Rt (GStruct rvals) (ts ++ []) <> Ok (GStruct (assign_by_name wfs rfs wvals rvals), []).
 Proof. exact (by_name_refuted ). Qed.
 
+Local Open Scope N_scope.
+(* with empty-field skipping the marshaller omits EXACTLY the zero-valued fields and empty slices: the stream is Object, the kept fields (filter) in declaration order, ObjectEnd *)
+Theorem c16_skip_empty_fields_exact t fs vals :
+  underlying t = TStruct fs ->
+  marshal se_opts t (GStruct vals) =
+  bind (fields_stream se_opts
+          (filter (fun p => fexported (fst p) && negb (empty_field (ftype (fst p)) (snd p))) (combine fs vals)))
+       (fun body => Ok (reg_prefix t ++ T KObject VNone :: body ++ [T KObjectEnd VNone])).
+Proof. exact (skip_empty_fields_exact t fs vals). Qed.
+
+Local Open Scope N_scope.
+(* what 'kept' means, field by field *)
+Theorem c16_kept_fields_spec fs vals fd x :
+  In (fd, x) (kept_fields se_opts fs vals) <->
+  In (fd, x) (combine fs vals) /\ fexported fd = true /\
+  is_zero (ftype fd) x = false /\ (is_slice_kind (ftype fd) && Nat.eqb (glen x) 0) = false.
+Proof. exact (kept_fields_spec fs vals fd x). Qed.
+
+Local Open Scope N_scope.
+(* without the option every exported field is emitted *)
+Theorem c16_noskip_all_fields o t fs vals :
+  skip_empty o = false -> underlying t = TStruct fs ->
+  marshal o t (GStruct vals) =
+  bind (fields_stream o (filter (fun p => fexported (fst p)) (combine fs vals)))
+       (fun body => Ok (reg_prefix t ++ T KObject VNone :: body ++ [T KObjectEnd VNone])).
+Proof. exact (noskip_all_exported_fields o t fs vals). Qed.
+
+(* the shortened stream still round-trips to an equivalent value (option applied at every depth: nested structs behind slices, arrays, pointers) *)
+Theorem c16_skip_empty_roundtrip pf o R t v ts rest :
+  wf_ty t = true -> simple_ty t = true ->
+  has_type t v = true -> no_ptr_to_nil v = true ->
+  marshal se_opts t v = Ok ts ->
+  exists f v', unm pf f o R t (zero t) (ts ++ rest) = Ok (v', rest) /\
+               v' = normal_se t v /\ deq v' (normal t v) = true.
+Proof. exact (skip_empty_roundtrip pf o R t v ts rest). Qed.
+
+(* with an explicit fuel bound *)
+Theorem c16_skip_empty_roundtrip_fuel pf o R t v ts rest f :
+  wf_ty t = true -> simple_ty t = true ->
+  has_type t v = true -> no_ptr_to_nil v = true ->
+  marshal se_opts t v = Ok ts -> (2 * vsize v < f)%nat ->
+  unm pf f o R t (zero t) (ts ++ rest) = Ok (normal_se t v, rest) /\
+  deq (normal_se t v) (normal t v) = true.
+Proof. exact (skip_empty_roundtrip_fuel pf o R t v ts rest f). Qed.
+
+Local Open Scope N_scope.
+(* what comes back is deeply equal (deq) to what the full stream gives *)
+Theorem c16_normal_se_equiv t v :
+  has_type t v = true -> deq (normal_se t v) (normal t v) = true.
+Proof. exact (normal_se_equiv t v). Qed.
+
+Local Open Scope N_scope.
+(* non-vacuity: struct{A int; B []bool; C float64; D struct{X int32; Y []string}; E string} = {0, []bool{}, -0.0, {0, nil}, "hi"} *)
+Theorem c16_skip_empty_example_hyps  :
+  wf_ty Ex5 = true /\ simple_ty Ex5 = true /\ has_type Ex5 ex5_v = true /\ no_ptr_to_nil ex5_v = true.
+Proof. exact (ex5_hyps ). Qed.
+
+Local Open Scope N_scope.
+(* only E is kept *)
+Theorem c16_skip_empty_example_kept  :
+  kept_fields se_opts Ex5fs ex5_vals = [(([69], true, TString), GStr [104; 105])].
+Proof. exact (ex5_kept ). Qed.
+
+Local Open Scope N_scope.
+(* and it reads back with C = +0.0, B = nil *)
+Theorem c16_skip_empty_example_roundtrip pf o R rest :
+  exists f v',
+    unm pf f o R Ex5 (zero Ex5)
+        ([T KObject VNone; T KString (VStr [69]); T KString (VStr [104; 105]); T KObjectEnd VNone] ++ rest) = Ok (v', rest) /\
+    v' = GStruct [GInt 0; GList true []; GF64 0; GStruct [GInt 0; GList true []]; GStr [104; 105]] /\
+    deq v' (normal Ex5 ex5_v) = true.
+Proof. exact (ex5_thm pf o R rest). Qed.
+
+Local Open Scope N_scope.
+(* the edge: the theorem is about a ZERO target; an omitted field keeps whatever a non-zero target held *)
+Theorem c16_skip_empty_merge_edge  :
+  unm (fun _ _ => None) 20 default_opts [] Ex5
+      (GStruct [GInt 7; GList true []; GF64 4607182418800017408; GStruct [GInt 0; GList true []]; GStr []])
+      [T KObject VNone; T KString (VStr [69]); T KString (VStr [104; 105]); T KObjectEnd VNone]
+  = Ok (GStruct [GInt 7; GList true []; GF64 4607182418800017408; GStruct [GInt 0; GList true []]; GStr [104; 105]], []).
+Proof. exact (skip_empty_merge_edge ). Qed.
+
 Print Assumptions c16_by_name.
 Print Assumptions c16_by_name_fuel.
 Print Assumptions c16_strict_unknown_rejected.
@@ -80,3 +162,13 @@ Print Assumptions c16_strict_deprecated_skipped.
 Print Assumptions c16_unknown_skipped.
 Print Assumptions c16_skip_is_structural.
 Print Assumptions c16_merge_edge.
+Print Assumptions c16_skip_empty_fields_exact.
+Print Assumptions c16_kept_fields_spec.
+Print Assumptions c16_noskip_all_fields.
+Print Assumptions c16_skip_empty_roundtrip.
+Print Assumptions c16_skip_empty_roundtrip_fuel.
+Print Assumptions c16_normal_se_equiv.
+Print Assumptions c16_skip_empty_example_hyps.
+Print Assumptions c16_skip_empty_example_kept.
+Print Assumptions c16_skip_empty_example_roundtrip.
+Print Assumptions c16_skip_empty_merge_edge.
